@@ -91,6 +91,7 @@ func init() {
 			Variants: []string{"d", "i"},
 			Entries: func(gg *GenGrammar) []EntrySpec {
 				es := []EntrySpec{{Name: "C14same", Params: "n1, n2, order int", Body: "hl.C14(G, vd.New, vd.New, HASACT, n1, n2, order, NSW)"}}
+				es = append(es, EntrySpec{Name: "C14shared", Params: "n1, n2, order int", Body: "mk := vd.NewShared(8); hl.C14(G, mk, mk, HASACT, n1, n2, order, NSW)"})
 				if gg.OK("i") {
 					es = append(es, EntrySpec{Name: "C14diff", Params: "n1, n2, order int", Body: "hl.C14(G, vd.New, vi.New, HASACT, n1, n2, order, NSW)"})
 				}
@@ -103,6 +104,7 @@ func init() {
 						jobs = append(jobs, &Job{Entry: "C14same", Args: []int{ns[0], ns[1], o}})
 					}
 					jobs = append(jobs, &Job{Entry: "C14diff", Args: []int{2, 2, o}})
+					jobs = append(jobs, &Job{Entry: "C14shared", Args: []int{2, 3, o}})
 				}
 				return jobs
 			},
